@@ -74,3 +74,6 @@ def search(ctx):
 
 def replay(ctx, obj):
     return K.replay_generic(ctx, obj)
+
+
+from . import _readers; _readers.install(globals())  # noqa: E402,E702  reader-only and log formats (Iodata.Props.C03Readers)
